@@ -16,6 +16,8 @@
 (* (the reader fails at that point of the stream).                         *)
 (*                                                                         *)
 (* LoadResult(s, doc, dv) = [ok, s, why, off]; dv = {} is the property.    *)
+(* LoadVia(s, doc, dv, via): the same delivered as SDL text ("sdl") or as   *)
+(* Go-built types through Root.AddTypes ("types").                         *)
 (* Deviations reproduce how root.go behaves where it is known to differ.   *)
 (***************************************************************************)
 EXTENDS Introspect
@@ -83,4 +85,19 @@ LoadResult(s, doc, dv) ==
                      vs == Violations(s2, dv) IN
                  IF vs # {} THEN [ok |-> FALSE, s |-> s, why |-> "invalid", off |-> (CHOOSE v \in vs : TRUE).off, offs |-> {v.off : v \in vs}]
                  ELSE [ok |-> TRUE, s |-> s2, why |-> "", off |-> "", offs |-> {}]
+
+\* Root.AddTypes(types...): definitions an application built in Go (composite literals with Ref place holders,
+\* the Add* methods) instead of writing SDL. There is nothing to read, no extend block and no schema block. The
+\* new definitions are added and the whole schema validated exactly as for a document; the operation roots are
+\* ParseReader's business (assureSchema) - AddTypes leaves them as they are, and the next document loaded finds
+\* the types named Query / Mutation / Subscription.
+TypesEligible(doc) == \A i \in DOMAIN doc : ~doc[i].ext /\ doc[i].kind # "SCHEMA" /\ ~IsFault(doc[i])
+AddTypesResult(s, doc, dv) ==
+  LET a == AddNew(s, doc, 1) IN
+  IF ~a.ok THEN Fail(s, a.why, a.off)
+  ELSE LET vs == Violations(a.s, dv) IN
+       IF vs # {} THEN [ok |-> FALSE, s |-> s, why |-> "invalid", off |-> (CHOOSE v \in vs : TRUE).off, offs |-> {v.off : v \in vs}]
+       ELSE [ok |-> TRUE, s |-> a.s, why |-> "", off |-> "", offs |-> {}]
+
+LoadVia(s, doc, dv, via) == IF via = "types" THEN AddTypesResult(s, doc, dv) ELSE LoadResult(s, doc, dv)
 =============================================================================
